@@ -226,9 +226,11 @@ pub fn gen_buf_history(r: &mut Rng) -> Vec<BOp> {
         if round > 0 {
             ops.push(BOp::Recycle { ip_number: r.u8() });
         }
-        let len = match r.below(8) {
-            0 => r.usize_range(9, 40),
-            1 => r.usize_range(2_000, 9_000),
+        let len = match r.below(16) {
+            0 | 1 => r.usize_range(9, 40),
+            2 | 3 => r.usize_range(2_000, 9_000),
+            // the largest datagrams offset and length fields allow
+            4 => *r.pick(&[65_535usize, 65_535, 65_534, 65_528, 65_529, 65_520]),
             _ => r.usize_range(9, 400),
         };
         let payload = r.bytes(len);
